@@ -56,6 +56,7 @@ type Contract struct {
 	Strings  string
 	Owned    []string
 	NoSweep  bool
+	ResultFuncPure bool // the func value returned modifies nothing when called (assumed)
 	Uses     []string // axioms assumed at entry
 	Counts   []CountSpec
 	IsType   bool // functype contract
@@ -103,7 +104,15 @@ type AxiomSpec struct {
 	Pos     string
 }
 
+type RangeSpec struct {
+	Sel     string // Type.field
+	Lo, Hi  string
+	PkgPath string
+	Pos     string
+}
+
 type ContractSet struct {
+	Ranges []*RangeSpec
 	GhostNames map[string]bool
 	Axioms   map[string]*AxiomSpec
 	ByTarget map[string]*Contract // key: pkgpath + "::" + target
@@ -119,7 +128,7 @@ var clauseKeywords = map[string]bool{
 	"requires": true, "ensures": true, "ensures-on-panic": true, "panics-when": true,
 	"nopanic": true, "modifies": true, "loop": true, "assert-at": true, "ghost": true,
 	"inline": true, "pure": true, "trusted": true, "property": true, "strings": true,
-	"owned": true, "nosweep": true, "counts": true, "uses": true,
+	"owned": true, "nosweep": true, "counts": true, "uses": true, "result-func-pure": true,
 }
 
 func loadContracts(pkgs []*packages.Package) *ContractSet {
@@ -176,7 +185,7 @@ func (cs *ContractSet) parseFile(p *packages.Package, f *ast.File, fname string)
 	var items []rawLine
 	for _, l := range lines {
 		w := firstWord(l.text)
-		if w == "func" || w == "functype" || w == "pred" || w == "frame" || w == "lemma" || w == "axiom" || clauseKeywords[w] {
+		if w == "func" || w == "functype" || w == "pred" || w == "frame" || w == "lemma" || w == "axiom" || w == "assume-range" || clauseKeywords[w] {
 			items = append(items, l)
 		} else if len(items) > 0 {
 			items[len(items)-1].text += " " + l.text
@@ -234,6 +243,14 @@ func (cs *ContractSet) parseFile(p *packages.Package, f *ast.File, fname string)
 			fs.PkgPath = p.PkgPath
 			fs.Text = rest
 			cs.Frames = append(cs.Frames, fs)
+		case "assume-range":
+			// assume-range Type.field lo hi : every value read from the field lies in [lo, hi)
+			f := strings.Fields(rest)
+			if len(f) != 3 {
+				cs.errf(it.pos, "assume-range Type.field lo hi")
+				continue
+			}
+			cs.Ranges = append(cs.Ranges, &RangeSpec{Sel: f[0], Lo: f[1], Hi: f[2], PkgPath: p.PkgPath, Pos: it.pos})
 		case "axiom":
 			// axiom name : expr   (an assumed fact; listed in every evidence file that uses it)
 			ci := strings.Index(rest, ":")
@@ -322,6 +339,8 @@ func (cs *ContractSet) parseClause(c *Contract, kw, rest, pos string) {
 		c.Pure = true
 	case "nosweep":
 		c.NoSweep = true
+	case "result-func-pure":
+		c.ResultFuncPure = true
 	case "uses":
 		c.Uses = append(c.Uses, strings.Fields(strings.ReplaceAll(rest, ",", " "))...)
 	case "trusted":
